@@ -11,8 +11,11 @@ mod util;
 use common::Session;
 
 /// `--only-part <name>` restricts a run to one part (timing / sanitizer passes).
+/// `--skip-parts a,b` leaves parts out (the Miri pass skips the parts whose every case loops over all
+/// cuts of a document through an async reader: under the interpreter they alone take longer than the
+/// rest of the engine together).
 pub fn want(s: &Session, part: &str) -> bool {
-    s.args.extra.get("only-part").map_or(true, |p| p == part)
+    s.args.extra.get("only-part").map_or(true, |p| p == part) && !s.args.extra.get("skip-parts").map_or(false, |l| l.split(',').any(|p| p == part))
 }
 
 fn main() {
